@@ -378,7 +378,7 @@ func reflectStubs() map[string]StubFn {
 			if x.Obj == 0 {
 				c.Return(BVC(64, 0))
 			} else {
-				c.Return(BVC(64, uint64(len(c.st.heap[x.Obj].(*MapObj).Keys))))
+				c.Return(c.ex.mapLen(c.st, c.st.heap[x.Obj].(*MapObj)))
 			}
 			return
 		}
@@ -578,6 +578,30 @@ func reflectStubs() map[string]StubFn {
 					sv := SliceV{Obj: s.Obj, Off: s.Off + l, Len: bvBin("bvsub", hi, BVC(64, uint64(l))), Cap: bvBin("bvsub", max, BVC(64, uint64(l)))}
 					c.ReturnOn(st, wrapRV(xw, RValue{T: r.T, Imm: sv}))
 				})
+			case *ArrV:
+				if r.Loc == nil {
+					c.reflectPanic("Value.Slice: slice of unaddressable array")
+					return
+				}
+				if len(r.Loc.Path) != 0 {
+					unsupported("reflect Slice of an array embedded in another object")
+				}
+				at := r.T.Underlying().(*types.Array)
+				n := BVC(64, uint64(at.Len()))
+				max := n
+				if three {
+					max = c.args[3].(*Term)
+				}
+				ok := And(bvCmp("bvule", lo, hi), bvCmp("bvule", hi, max), bvCmp("bvule", max, n))
+				if !c.ex.guard(c.st, ok, "reflect: array slice index out of bounds") {
+					return
+				}
+				xw := c.isX()
+				obj := r.Loc.Obj
+				c.ex.concretize(c.st, lo, int(at.Len())+1, func(st *State, l int) {
+					sv := SliceV{Obj: obj, Off: l, Len: bvBin("bvsub", hi, BVC(64, uint64(l))), Cap: bvBin("bvsub", max, BVC(64, uint64(l)))}
+					c.ReturnOn(st, wrapRV(xw, RValue{T: types.NewSlice(at.Elem()), Imm: sv}))
+				})
 			default:
 				unsupported("reflect Slice on %T", v)
 			}
@@ -585,6 +609,142 @@ func reflectStubs() map[string]StubFn {
 	}
 	both("Slice", sliceOp(false))
 	both("Slice3", sliceOp(true))
+
+	// ---- package-level helpers used by reflection-based container code ----
+	m["reflect.Indirect"] = func(c *CallCtx) {
+		r := unwrapRV(c.args[0])
+		u, ok := typeUnder(r.T).(*types.Pointer)
+		if !ok {
+			c.Return(r)
+			return
+		}
+		p := c.ex.rvGet(c.st, r).(Ptr)
+		if p.IsNil() {
+			c.Return(RValue{})
+			return
+		}
+		c.Return(RValue{T: u.Elem(), Loc: &p, Settable: true})
+	}
+	m["reflect.AppendSlice"] = func(c *CallCtx) {
+		s, t := unwrapRV(c.args[0]), unwrapRV(c.args[1])
+		us, ok1 := typeUnder(s.T).(*types.Slice)
+		ut, ok2 := typeUnder(t.T).(*types.Slice)
+		if !ok1 || !ok2 {
+			c.reflectPanic("call of reflect.AppendSlice on non-slice Value")
+			return
+		}
+		if !types.Identical(us.Elem(), ut.Elem()) {
+			c.reflectPanic("reflect.AppendSlice: " + typeName(us.Elem()) + " != " + typeName(ut.Elem()))
+			return
+		}
+		sv := c.ex.rvGet(c.st, s).(SliceV)
+		c.ex.expandSeq(c.st, c.ex.rvGet(c.st, t), "reflect.AppendSlice", func(st *State, add []Value) {
+			c.ReturnOn(st, RValue{T: s.T, Imm: c.ex.appendVals(st, sv, add, us.Elem())})
+		})
+	}
+	m["reflect.Copy"] = func(c *CallCtx) {
+		d, s := unwrapRV(c.args[0]), unwrapRV(c.args[1])
+		var de, se types.Type
+		switch u := typeUnder(d.T).(type) {
+		case *types.Slice:
+			de = u.Elem()
+		case *types.Array:
+			de = u.Elem()
+			if d.Loc == nil || !d.Settable {
+				c.reflectPanic("reflect.Copy: unaddressable array value")
+				return
+			}
+		default:
+			c.reflectPanic("reflect.Copy: destination is not a slice or array")
+			return
+		}
+		switch u := typeUnder(s.T).(type) {
+		case *types.Slice:
+			se = u.Elem()
+		case *types.Array:
+			se = u.Elem()
+		case *types.Basic:
+			if u.Info()&types.IsString == 0 {
+				c.reflectPanic("reflect.Copy: source is not a slice, array or string")
+				return
+			}
+			se = types.Typ[types.Uint8]
+		default:
+			c.reflectPanic("reflect.Copy: source is not a slice, array or string")
+			return
+		}
+		if !types.Identical(de, se) {
+			c.reflectPanic("reflect.Copy: " + typeName(de) + " != " + typeName(se))
+			return
+		}
+		var dst SliceV
+		switch dv := c.ex.rvGet(c.st, d).(type) {
+		case SliceV:
+			dst = dv
+		case *ArrV:
+			if len(d.Loc.Path) != 0 {
+				unsupported("reflect.Copy into an array embedded in another object")
+			}
+			n := BVC(64, uint64(len(dv.Elems)))
+			dst = SliceV{Obj: d.Loc.Obj, Len: n, Cap: n}
+		}
+		src := c.ex.rvGet(c.st, s)
+		if a, ok := src.(*ArrV); ok {
+			n := c.ex.copyVals(c.st, dst, a.Elems)
+			c.Return(BVC(64, uint64(n)))
+			return
+		}
+		c.ex.expandSeq(c.st, src, "reflect.Copy", func(st *State, elems []Value) {
+			c.ReturnOn(st, BVC(64, uint64(c.ex.copyVals(st, dst, elems))))
+		})
+	}
+	rtypeOf := func(v Value) types.Type {
+		switch a := v.(type) {
+		case Iface:
+			if a.T == nil {
+				return nil
+			}
+			return a.V.(RType).T
+		case RType:
+			return a.T
+		}
+		unsupported("reflect.Type argument %T", v)
+		return nil
+	}
+	rtypeRet := func(c *CallCtx, t types.Type) { c.Return(Iface{T: rtypeImplType, V: RType{T: t}}) }
+	m["reflect.PtrTo"] = func(c *CallCtx) { rtypeRet(c, types.NewPointer(rtypeOf(c.args[0]))) }
+	m["reflect.PointerTo"] = m["reflect.PtrTo"]
+	m["reflect.SliceOf"] = func(c *CallCtx) { rtypeRet(c, types.NewSlice(rtypeOf(c.args[0]))) }
+	m["reflect.FuncOf"] = func(c *CallCtx) {
+		tuple := func(v Value) *types.Tuple {
+			if isNilValue(v) {
+				return nil
+			}
+			s := v.(SliceV)
+			n := c.ex.concreteInt(s.Len, "reflect.FuncOf: number of types")
+			var vars []*types.Var
+			for i := 0; i < n; i++ {
+				vars = append(vars, types.NewVar(0, nil, "", rtypeOf(c.st.heap[s.Obj].(*ArrV).Elems[s.Off+i])))
+			}
+			return types.NewTuple(vars...)
+		}
+		in, out := tuple(c.args[0]), tuple(c.args[1])
+		variadic := c.args[2].(*Term)
+		if !variadic.Const {
+			unsupported("reflect.FuncOf with symbolic variadic flag")
+		}
+		if variadic.U == 1 {
+			if in.Len() == 0 {
+				c.reflectPanic("reflect.FuncOf: last arg of variadic func must be slice")
+				return
+			}
+			if _, ok := in.At(in.Len() - 1).Type().Underlying().(*types.Slice); !ok {
+				c.reflectPanic("reflect.FuncOf: last arg of variadic func must be slice")
+				return
+			}
+		}
+		rtypeRet(c, types.NewSignatureType(nil, nil, nil, in, out, variadic.U == 1))
+	}
 
 	// ---- xreflect.Type (a func type with methods) over types.Type ----
 	xt := func(name string, f func(c *CallCtx, t types.Type)) {
@@ -701,6 +861,14 @@ func reflectStubs() map[string]StubFn {
 		default:
 			c.reflectPanic("Elem of " + typeName(t))
 		}
+	})
+	rt("Key", func(c *CallCtx, t types.Type) {
+		u, ok := t.Underlying().(*types.Map)
+		if !ok {
+			c.reflectPanic("Key of non-map type " + typeName(t))
+			return
+		}
+		c.Return(Iface{T: rtypeImplType, V: RType{T: u.Key()}})
 	})
 	rt("String", func(c *CallCtx, t types.Type) { c.Return(StrC(typeName(t))) })
 	rt("Name", func(c *CallCtx, t types.Type) {
